@@ -137,7 +137,7 @@ def repeated_exh(tier, seed):
 
 
 def cases(tier, seed, spec):
-    yield from gen.deep(tier, seed)
+    yield from (c for c in gen.deep(tier, seed) if tier == 'thorough' or c['fam'].endswith('specific-first'))
     yield from repeated_exh(tier, seed)
     yield from gen.repeated(seed, 16 if tier == 'quick' else 400)
     yield from gen.biglat(tier)
